@@ -105,6 +105,7 @@ def aggregate(chk, outcomes, unit_of=lambda k: k.get("unit")):
             chk.sample({"key": o["key"], "verdict": "unsat"})
         elif st in ("unknown", "vacuous"):
             chk.count("inconclusive")
+            chk.cov.setdefault("inconclusive_list", []).append({"key": o["key"], "status": st})
             if st == "vacuous":
                 chk.count("reachability_twins_failed")
         elif st == "sat_replayed":
@@ -134,3 +135,74 @@ def safe_apply(fn):
         return "refused", str(e)[:200]
     except Exception as e:  # pylint: disable=broad-except
         return "error", f"{type(e).__name__}: {e}"[:300] + "\n" + traceback.format_exc()[-600:]
+
+
+def enumerate_apps(psyir, trans_specs):
+    """trans_specs: [(name, factory, node_filter, options)].  Returns the list of
+    (name, node_index, options, validated_ok, refusal) for every node passing the filter."""
+    from psyclone.psyir.nodes import Node
+    from psyclone.psyir.transformations import TransformationError
+    out = []
+    nodes = psyir.walk(Node)
+    for name, factory, flt, options in trans_specs:
+        for idx, node in enumerate(nodes):
+            try:
+                if not flt(node):
+                    continue
+            except Exception:  # pylint: disable=broad-except
+                continue
+            try:
+                factory().validate(node, options) if options is not None else factory().validate(node)
+                out.append((name, idx, options, True, None))
+            except TransformationError as e:
+                out.append((name, idx, options, False, str(e)[:160]))
+            except Exception as e:  # pylint: disable=broad-except
+                out.append((name, idx, options, None, f"{type(e).__name__}: {e}"[:200]))
+    return out
+
+
+def run_apps(case, trans_specs, K, E, routine=None, check_oob=False, describe=None):
+    """Generic worker body: for each validated application re-read the source, apply,
+    write, decide equivalence against the written original."""
+    from psyclone.psyir.nodes import Node
+    outs = []
+    src = case["src"]
+    routine = routine or case["routine"]
+    try:
+        base = read_psyir(src)
+        base_txt = write_psyir(base)
+    except Exception as e:  # pylint: disable=broad-except
+        return [{"key": {"unit": "reader/writer", "template": case["template"], "params": case["params"]},
+                 "status": "psyclone_error", "why": f"{type(e).__name__}: {e}"[:300]}]
+    spec = {n: (f, o) for n, f, _, o in trans_specs}
+    for name, idx, options, ok, why in enumerate_apps(base, trans_specs):
+        node_desc = describe(base.walk(Node)[idx]) if describe else idx
+        key = {"unit": name, "template": case["template"],
+               "params": dict(case["params"], node=node_desc, **(options or {}))}
+        if ok is False:
+            outs.append({"key": key, "status": "refused", "why": why})
+            continue
+        if ok is None:
+            outs.append({"key": key, "status": "psyclone_error", "why": "validate: " + why})
+            continue
+        p = read_psyir(src)
+        node = p.walk(Node)[idx]
+        factory = spec[name][0]
+        st, why = safe_apply(lambda: factory().apply(node, options) if options is not None
+                             else factory().apply(node))
+        if st == "refused":
+            outs.append({"key": key, "status": "refused", "why": why})
+            continue
+        if st == "error":
+            outs.append({"key": key, "status": "psyclone_error", "why": why})
+            continue
+        try:
+            new_txt = write_psyir(p)
+        except Exception as e:  # pylint: disable=broad-except
+            outs.append({"key": key, "status": "psyclone_error", "why": f"writer: {type(e).__name__}: {e}"[:300]})
+            continue
+        if new_txt == base_txt:
+            outs.append({"key": key, "status": "refused", "why": "no change"})
+            continue
+        outs.append(decide(base_txt, new_txt, routine, K, E, key, check_oob=check_oob))
+    return outs
